@@ -109,6 +109,7 @@ STYLES = [
     ('cell', 'multi', 'reverse'),        # interface nodes drive every reader from an own output pin
     ('fork', 'fanout', 'reverse'),
     ('cell', 'chain_first', 'gates_first'),   # a 1:1 fork on the FIRST branch of a fan-out fork
+    ('cell', 'chain_rev', 'io_first'),        # chain of two forks, the DOWNSTREAM fork is created first
 ]
 
 
@@ -198,6 +199,17 @@ def build(nl, style=STYLES[0], io_order='in_out'):
             continue
         if forks == 'fanout' and len(rs) == 1:
             lines.append(Line(c, drv(), reader_ep(rs[0])))
+            continue
+        if forks == 'chain_rev':
+            f2 = Node(c, f'{sig}_f{next(fork_names)}')      # downstream fork first (creation order matters for name-keyed maps)
+            f = Node(c, f'{sig}_f{next(fork_names)}')
+            lines.append(Line(c, f, f2))                     # the fork-to-fork line gets the lowest index
+            lines.append(Line(c, drv(), f))
+            if len(rs) > 1:
+                lines.append(Line(c, f, reader_ep(rs[0])))
+                for r in rs[1:]: lines.append(Line(c, f2, reader_ep(r)))
+            else:
+                lines.append(Line(c, f2, reader_ep(rs[0])))
             continue
         f = Node(c, f'{sig}_f{next(fork_names)}')
         lines.append(Line(c, drv(), f))
